@@ -30,9 +30,9 @@ static const double AX[16][3] = {{1, 0, 0}, {-1, 0, 0}, {0, 1, 0}, {0, -1, 0}, {
 static const char* AXN[16] = {"+x", "-x", "+y", "-y", "+z", "-z", "(1,1,0)", "(1,1,1)", "generic", "longest_axis", "+z tilted by 0.001 rad", "-z tilted by 0.001 rad", "+z tilted by 1e-06 rad", "-z tilted by 1e-06 rad", "+x tilted by 0.001 rad", "-y tilted by 1e-06 rad"};   // index 9 = the real longest axis; 10..15 = almost axis-aligned
 static const char* LMN[4] = {"band_low", "band_middle", "band_high", "too_large"};
 
-struct Case { int shape, axis, lmin, seed; };
-static std::string case_text(const Case& c) { return std::to_string(c.shape) + " " + std::to_string(c.axis) + " " + std::to_string(c.lmin) + " " + std::to_string(c.seed); }
-static std::string case_json(const Case& c) { return "{\"shape\":\"" + g_shapes[c.shape].name + "\",\"axis\":\"" + AXN[c.axis] + "\",\"l_min\":\"" + LMN[c.lmin] + "\",\"seed\":" + std::to_string(c.seed) + "}"; }
+struct Case { int shape, axis, lmin, seed; int hist = 0; /* 1: the mother went through a real edge collapse (free slots); 2: her nodes have moved since her caches were last refreshed, as in a running simulation */ };
+static std::string case_text(const Case& c) { return std::to_string(c.shape) + " " + std::to_string(c.axis) + " " + std::to_string(c.lmin) + " " + std::to_string(c.seed) + " " + std::to_string(c.hist); }
+static std::string case_json(const Case& c) { return "{\"shape\":\"" + g_shapes[c.shape].name + "\",\"axis\":\"" + AXN[c.axis] + "\",\"l_min\":\"" + LMN[c.lmin] + "\",\"seed\":" + std::to_string(c.seed) + ",\"mother_history\":" + std::to_string(c.hist) + "}"; }
 
 static std::vector<std::array<double, 9>> soup(const cell& c) { std::vector<std::array<double, 9>> s; for (const face& f : c.face_lst_) if (f.is_used_) { const vec3 &a = c.node_lst_[f.n1_id_].pos_, &b = c.node_lst_[f.n2_id_].pos_, &d = c.node_lst_[f.n3_id_].pos_;
         std::array<std::array<double, 3>, 3> v = {{{a.dx(), a.dy(), a.dz()}, {b.dx(), b.dy(), b.dz()}, {d.dx(), d.dy(), d.dz()}}}; int m = 0; for (int i = 1; i < 3; i++) if (v[i] < v[m]) m = i;   // rotate to a canonical start, keeps the winding
@@ -59,6 +59,8 @@ static std::string divide_once(const Case& cs) {
     const sc::Mesh& m = g_shapes[cs.shape]; auto ty = sc::make_cell_type(0, 3); auto c = std::make_shared<forced_axis_cell>(m.pos, m.tri, 7u, ty); c->set_local_id(0); c->initialize_cell_properties();
     if (cs.axis != 9) { c->forced_ = true; c->axis_ = vec3(AX[cs.axis][0], AX[cs.axis][1], AX[cs.axis][2]); }
     bool in_band = false; const double l_min = lmin_for(m, cs.lmin, in_band); local_mesh_refiner lmr(l_min, 3 * l_min, true);
+    if (cs.hist == 1) { local_mesh_refiner wide(1e-9, 1e9, true); for (const edge& e0 : c->get_edge_set()) { edge e = e0; bool can = false; try { can = wide.can_be_merged(e, c); } catch (...) {} if (!can) continue; edge_set es = c->get_edge_set(); try { wide.merge_edge(e, c, es); } catch (...) {} break; } c->update_all_face_normals_and_areas(); c->area_ = c->compute_area(); c->volume_ = c->compute_volume(); in_band = false; }
+    if (cs.hist == 2) { vec3 o = c->compute_centroid(); for (node& nd : c->node_lst_) if (nd.is_used_) nd.pos_ = o + (nd.pos_ - o) * 1.04 + vec3(0.01, -0.02, 0.015) * (nd.pos_ - o).dx(); }   // grown and sheared a little since the last forces phase: face areas, normals and the cached total area are one step old
     c->target_volume_ = 1.25 * c->get_volume();
     const auto before = soup(*c); const double Vm = (double)sc::geom_of(*c).vol; const double target_m = c->target_volume_; const vec3 centroid = c->compute_centroid(); const vec3 n = c->get_cell_division_axis();
     double size = 0; for (const node& nd : c->node_lst_) size = std::max(size, (nd.pos_ - centroid).norm());
@@ -111,8 +113,10 @@ static void explore(Result& R) {
     const bool th = R.args.thorough(); setup(); const int K = th ? 24 : 4; long cases = 0, ok = 0, fail = 0; double worst = 0; long unit = 0;
     for (int s = 0; s < (int)g_shapes.size(); s++) for (int a = 0; a < 16; a++) for (int l = 0; l < 4; l++) for (int k = 0; k < K; k++) {
         if (a >= 10 && !th && (l != 1 || k > 1)) continue;   /* quick: the almost axis-aligned axes with the mid-band edge length, two seeds */
-        if (!R.args.mine(unit++)) continue; if (R.out_of_time(0.9)) { R.cap("deadline"); goto pop; }
-        Case c{s, a, l, k}; cases++; progress("mode=single\ncase=" + case_text(c) + "\n");
+        if (R.out_of_time(0.9)) { R.cap("deadline"); goto pop; }
+        for (int hi = 0; hi < 3; hi++) { if (hi && !((a == 9 || a == 8 || a == 4) && l == 1 && k < 2)) continue;   /* mothers with a history: three axes, mid-band edge length, two seeds */
+        if (!R.args.mine(unit++)) continue;
+        Case c{s, a, l, k, hi}; cases++; progress("mode=single\ncase=" + case_text(c) + "\n");
         ForkOut fo = run_forked([&](char* buf, size_t cap) { std::string r = divide_once(c); snprintf(buf, cap, "%s", r.c_str()); }, 60);
         std::string r = fo.data; std::string err; R.mix(case_text(c) + "=>" + r);
         if (fo.status == -1000) err = "division-does-not-return: no answer within 60 s";
@@ -125,7 +129,7 @@ static void explore(Result& R) {
         else if (r.rfind("fail", 0) == 0) { fail++; R.tables["clean_failures_per_shape"][g_shapes[s].name]++; R.tables["clean_failure_reasons"][r.substr(r.size() > 5 ? 5 : 4)]++; }
         else err = r;
         if (!err.empty()) R.violation(clause_of(err) + "|axis=" + AXN[a], case_json(c) + ": " + err, "mode=single\ncase=" + case_text(c) + "\n");
-        if (cases % 150 == 1) R.sample(case_json(c)); }
+        if (cases % 150 == 1) R.sample(case_json(c)); } }
 pop:
     long pops = 0, divisions = 0, pops_with_division = 0;
     for (int mask = 0; mask < 8; mask++) for (int k = 0; k < (th ? 12 : 3); k++) { if (!R.args.mine(unit++)) continue; pops++; int nd = 0; std::string r;
@@ -140,6 +144,6 @@ pop:
 }
 static int replay(const Replay& rp, Result& R) { setup(); std::string r;
     if (rp.get("mode") == "population") { r = run_population((int)rp.geti("mask"), (int)rp.geti("seed")); }
-    else { Case c; std::istringstream i(rp.get("case")); i >> c.shape >> c.axis >> c.lmin >> c.seed; printf("%s\n", case_json(c).c_str()); r = divide_once(c); }
+    else { Case c; std::istringstream i(rp.get("case")); i >> c.shape >> c.axis >> c.lmin >> c.seed; if (!(i >> c.hist)) c.hist = 0; printf("%s\n", case_json(c).c_str()); r = divide_once(c); }
     printf("%s\n", r.c_str()); if (r != "ok" && r.rfind("fail", 0) != 0 && r.rfind("ok:", 0) != 0) { R.violation(clause_of(r), r, ""); return 1; } return 0; }
 int main(int argc, char** argv) { return run_main(argc, argv, "C09", explore, replay); }
